@@ -72,6 +72,8 @@ def reconfigure(hist, a, entry, rng, which=None):
         return
     key, j = which
     alts = dict(entry.sets)[key]
+    if key.endswith("random_state") and alts[j]() is None:
+        return          # random_state=None hands the fit over to the global generator: not the configuration C03 speaks about
     if key in lifecycle.view_of(a):
         hist.set(a, {key: alts[j]()})
 
